@@ -253,7 +253,7 @@ def stb99ParamsValV (isPrime : Nat → Bool) (lr : List (Nat × Nat)) (v : Stb99
 def chainOk (S : Nat) (xs : List Nat) : Bool :=
   let M := 2 ^ S
   let rec go : Nat → List Nat → Bool
-    | _, [] => true
+    | prev, [] => decide (prev ≤ 32)     -- the loop ran to the end of the array: `if (x[i-1] > 32) BAD`
     | prev, x :: rest =>
       if x > 16 then
         if x ≥ (M - 1) / 5 ∨ prev > 2 * x % M ∨ 5 * x % M ≥ (4 * prev % M + M - 16) % M then false
